@@ -22,6 +22,7 @@ use std::collections::BTreeMap;
 const REQ18: &str = "Common.Base Meta.Model_Flags Table.Model_Manifest Table.Model_StableIds";
 const CLASS_RANGES: &str = "rowid_index_overlapping_ranges";
 const CLASS_FLAG: &str = "stable_flag_dropped_on_empty_table";
+const CLASS_CACHE: &str = "rowid_sequence_cache_keyed_by_fragment_id";
 
 #[derive(Clone, Debug)]
 pub struct Row {
@@ -96,6 +97,8 @@ struct Track {
     ids: BTreeMap<i64, u64>,
     ids_at: BTreeMap<u64, BTreeMap<i64, u64>>,
     in_ranges_class: bool,
+    /// every row id sequence a fragment id has carried in any version of this history
+    seqs: BTreeMap<u64, std::collections::BTreeSet<Vec<u64>>>,
 }
 
 fn in_ranges_class(rows: &[Row]) -> bool {
@@ -109,6 +112,9 @@ async fn check_step(ctx: &mut Ctx, t: &mut Tbl, tr: &mut Track, s: &mut S18, sin
     for v in (t.verified + 1)..=latest {
         match export_version(ctx, t, v, &mut s.base, sink, "C18").await {
             Ok(e) => {
+                for f in &e.manifest.fragments {
+                    tr.seqs.entry(f.id).or_default().insert(f.row_ids.clone().unwrap_or_default());
+                }
                 s.inv.push(e.manifest.coq(), "true".into(), json!({"history": t.hist, "version": v}));
                 if let (Some(p), Some(op)) = (&e.prev, &e.op) {
                     if p.next_row_id.is_some() {
@@ -133,6 +139,27 @@ async fn check_step(ctx: &mut Ctx, t: &mut Tbl, tr: &mut Track, s: &mut S18, sin
         let empty = t.ds.manifest.fragments.is_empty();
         sink.oracle_fail(if empty { Some(CLASS_FLAG) } else { None }, "a table created with stable row ids no longer has FLAG_STABLE_ROW_IDS", case);
         return false;
+    }
+    // ---- known finding rowid_sequence_cache_keyed_by_fragment_id: a fragment id of this version carried another
+    //      row id sequence in an earlier version of the history (Overwrite restarts fragment ids at 0) and both
+    //      were read through this session.  Compare with a fresh session, then go on with the fresh handle.
+    let clash = last.as_ref().map(|e| e.manifest.fragments.iter().any(|f| tr.seqs.get(&f.id).map(|x| x.len() > 1).unwrap_or(false))).unwrap_or(false)
+        || t.ds.manifest.fragments.iter().any(|f| tr.seqs.get(&f.id).map(|x| x.len() > 1).unwrap_or(false));
+    if clash {
+        sink.count("c18:version-in-class:rowid_sequence_cache_keyed_by_fragment_id");
+        let uri = t.uri.clone();
+        match guarded(async move { Dataset::open(&uri).await }).await {
+            Ok(fresh) => {
+                let a = scan_rows(&t.ds).await.map(|r| r.iter().map(|x| (x.k, x.rowid)).collect::<Vec<_>>());
+                let b = scan_rows(&fresh).await.map(|r| r.iter().map(|x| (x.k, x.rowid)).collect::<Vec<_>>());
+                match (a, b) {
+                    (Ok(a), Ok(b)) if a == b => sink.oracle_ok(),
+                    (a, b) => sink.oracle_fail(Some(CLASS_CACHE), &format!("the same version scanned through the session that also read another version returns other row ids than through a fresh session: {:?} vs {:?}", a.map(|v| v.into_iter().take(6).collect::<Vec<_>>()), b.map(|v| v.into_iter().take(6).collect::<Vec<_>>())), case.clone()),
+                }
+                t.ds = fresh;
+            }
+            Err((_, e)) => sink.oracle_fail(None, &format!("cannot reopen the table: {e}"), case.clone()),
+        }
     }
     let rows = match scan_rows(&t.ds).await {
         Ok(r) => r,
@@ -246,7 +273,7 @@ pub fn run(args: &Args) -> i32 {
             let mut ctx = Ctx::default();
             let mut t = Tbl::create(&mut rng, true).await;
             t.allow_deferred_remap = false;
-            let mut tr = Track { ids: BTreeMap::new(), ids_at: BTreeMap::new(), in_ranges_class: false };
+            let mut tr = Track { ids: BTreeMap::new(), ids_at: BTreeMap::new(), in_ranges_class: false, seqs: BTreeMap::new() };
             let len = rng.range(4, 12);
             if !check_step(&mut ctx, &mut t, &mut tr, &mut s, &mut sink, &mut rng, "create", true, None).await {
                 continue;
@@ -303,7 +330,7 @@ pub fn run(args: &Args) -> i32 {
 /// The reproductions of the two known findings (DESIGN §6 F18; the flag drop found while stating C18_stable_flag_sticky).
 async fn scripted(s: &mut S18, sink: &mut Sink, rng: &mut Rng, which: &str) {
     let mut ctx = Ctx::default();
-    let mut tr = Track { ids: BTreeMap::new(), ids_at: BTreeMap::new(), in_ranges_class: false };
+    let mut tr = Track { ids: BTreeMap::new(), ids_at: BTreeMap::new(), in_ranges_class: false, seqs: BTreeMap::new() };
     match which {
         "create45" => {
             // F18: 45 rows, 10 per file; delete k % 3 = 0 OR 20 <= k < 30; update k = 31 OR k = 7; take_rows
@@ -332,6 +359,21 @@ pub fn probe() {
     let rt = tokio::runtime::Builder::new_multi_thread().worker_threads(4).enable_all().build().unwrap();
     rt.block_on(async {
         let mut rng = Rng::new(1);
+        println!("=== fragment-id keyed cache: create 14 rows (5 per file); overwrite with 10 rows; read version 1 again through the same handle");
+        let mut t = Tbl::create_with(true, lance_file::version::LanceFileVersion::V2_0, 5, 14).await;
+        let v1 = scan_rows(&t.ds).await.unwrap();
+        println!("    v1 (k,rowid) = {:?}", v1.iter().map(|r| (r.k, r.rowid)).collect::<Vec<_>>());
+        t.overwrite_n(10).await.unwrap();
+        let v2 = scan_rows(&t.ds).await.unwrap();
+        println!("    v2 after overwrite: fragments {:?} (k,rowid) = {:?}", t.ds.manifest.fragments.iter().map(|f| f.id).collect::<Vec<_>>(), v2.iter().map(|r| (r.k, r.rowid)).collect::<Vec<_>>());
+        let old = t.ds.checkout_version(1).await.unwrap();
+        let again = scan_rows(&old).await.unwrap();
+        println!("    checkout_version(1) through the same session: (k,rowid) = {:?}", again.iter().map(|r| (r.k, r.rowid)).collect::<Vec<_>>());
+        let fresh = lance::Dataset::open(&t.uri).await.unwrap().checkout_version(1).await.unwrap();
+        let again2 = scan_rows(&fresh).await.unwrap();
+        println!("    version 1 through a fresh session:              (k,rowid) = {:?}", again2.iter().map(|r| (r.k, r.rowid)).collect::<Vec<_>>());
+        let ids: Vec<u64> = v1.iter().take(3).map(|r| r.rowid).collect();
+        println!("    take_rows({ids:?}) on version 1 (same session) -> {:?}", take_ids(&old, &ids).await.map_err(|e| e.1.chars().take(160).collect::<String>()));
         println!("=== F18: stable row ids, 45 rows / 10 per file; delete; update; take_rows");
         let mut t = Tbl::create_with(true, lance_file::version::LanceFileVersion::V2_0, 10, 45).await;
         t.delete_where("k % 3 = 0 OR (k >= 20 AND k < 30)", |k| k % 3 == 0 || (20..30).contains(&k)).await.unwrap();
